@@ -1,16 +1,44 @@
 (* C07 - executable property on the implementation's observations.
    Two kinds of case: CW = fschannel.OpenRotateFile + Write driven directly (with outside
    remove / rename / restart between writes), CC = the registered "file" channel end to end.
-   File contents travel run-length encoded (lossless; decoded here by [unrle]). *)
-From Coq Require Import Uint63.
+   File contents travel run-length encoded with a small fixed dictionary (lossless; decoded here by [unrle]). *)
 From HT Require Import Common.Bytes C07.Model.
 Open Scope Z_scope.
 
-(* one run = byte + 256 * count, as a primitive integer (cheap to parse; no theorem depends on it) *)
-Definition rle := list int.
+(* one run = byte + 256 * count, written in base 16 with constructors Q0..QF, most significant digit outermost
+   (explicit constructors parse much faster than numerals) *)
+Inductive hx :=
+| Qz
+| Q0 (r : hx) | Q1 (r : hx) | Q2 (r : hx) | Q3 (r : hx) | Q4 (r : hx) | Q5 (r : hx) | Q6 (r : hx) | Q7 (r : hx)
+| Q8 (r : hx) | Q9 (r : hx) | QA (r : hx) | QB (r : hx) | QC (r : hx) | QD (r : hx) | QE (r : hx) | QF (r : hx).
+
+Fixpoint hx_val (acc : N) (h : hx) : N :=
+  match h with
+  | Qz => acc
+  | Q0 r => hx_val (acc * 16) r | Q1 r => hx_val (acc * 16 + 1) r
+  | Q2 r => hx_val (acc * 16 + 2) r | Q3 r => hx_val (acc * 16 + 3) r
+  | Q4 r => hx_val (acc * 16 + 4) r | Q5 r => hx_val (acc * 16 + 5) r
+  | Q6 r => hx_val (acc * 16 + 6) r | Q7 r => hx_val (acc * 16 + 7) r
+  | Q8 r => hx_val (acc * 16 + 8) r | Q9 r => hx_val (acc * 16 + 9) r
+  | QA r => hx_val (acc * 16 + 10) r | QB r => hx_val (acc * 16 + 11) r
+  | QC r => hx_val (acc * 16 + 12) r | QD r => hx_val (acc * 16 + 13) r
+  | QE r => hx_val (acc * 16 + 14) r | QF r => hx_val (acc * 16 + 15) r
+  end%N.
+
+(* fixed strings that every line carries, referenced as an item with count 0 *)
+Definition DICT : list bytes :=
+  [ [123;34;100;97;116;101;34;58;34;100;34;44;34;105;34;58]%N   (* brace, date:d, key i and colon - the start of an encoded event *)
+  ; [44;34;112;34;58;34]%N                                       (* comma, key p, colon, opening quote *)
+  ; [34;125;10]%N                                                (* closing quote, brace, newline *)
+  ; [123;34;105;34;58]%N ].                                      (* brace, key i and colon - the start of a line of the direct cases *)
+
+(* an item v = b + 256 * count: count > 0 = a run of byte b; count = 0 = DICT entry number b *)
+Definition rle := list hx.
 Definition unrle (r : rle) : bytes :=
-  flat_map (fun x => repeat (Z.to_N (Uint63.to_Z (Uint63.land x 255)))
-                            (Z.to_nat (Uint63.to_Z (Uint63.lsr x 8)))) r.
+  flat_map (fun h => let v := hx_val 0 h in
+                     let c := (v / 256)%N in
+                     if (c =? 0)%N then nth (N.to_nat v) DICT []
+                     else repeat (v mod 256)%N (N.to_nat c)) r.
 
 Inductive cop :=
 | CWrite (s : N) (p : rle)      (* s = wall-clock second (relative) observed around the call *)
@@ -39,6 +67,9 @@ Record ccase := mkC {
   c_sec0 : N;
   c_init : rle;
   c_bursts : list (N * N * list rle);(* (second while sending, second of the idle flush, encoded events) *)
+  c_clock : list N;                  (* when not empty: the second of the g-th rotation, read off the
+                                        names of the rotated files (a flush with hundreds of rotations
+                                        can straddle seconds); replaces the two readings above *)
   (* observed *)
   c_blocked : bool;                  (* some Send did not return within the bound *)
   c_cur : rle;
@@ -183,7 +214,10 @@ Definition w_sig (c : wcase) : N :=
 
 (* ---- CC ---- *)
 Definition c_events (c : ccase) : list wev :=
-  flat_map (fun b => let '(s1, s2, ls) := b in map (fun l => ESend s1 (unrle l)) ls ++ [EIdle s2]) (c_bursts c).
+  flat_map (fun b => let '(s1, s2, ls) := b in
+              let k1 := match c_clock c with [] => (fun _ => s1) | l => (fun g => nth g l 0%N) end in
+              let k2 := match c_clock c with [] => (fun _ => s2) | l => (fun g => nth g l 0%N) end in
+              map (fun l => ESend k1 (unrle l)) ls ++ [EIdle k2]) (c_bursts c).
 
 Definition c_model (c : ccase) : option wl :=
   wl_run (wl_new (c_max c) (c_openable c) (c_sec0 c) (unrle (c_init c))) (c_events c).
